@@ -1,10 +1,12 @@
 """C10 - rounding a datetime: increment/mode tables, day carry independent of the year, zoned pipelines, range re-checks."""
+import re
 import itertools, os, re
 from .. import mir
 from ..term import Terms, show, alts, is_call, walk, match, V, C, TRY, ok_payloads
 from ..e1 import src_line
 from ..rules_e2 import run_e2
 from ..rules_dep import run_dep
+from ..rules_signpair import run_truncsplit
 
 UNITS = ["Nanosecond", "Microsecond", "Millisecond", "Second", "Minute", "Hour", "Day"]
 NANOS = ["", "NANOS_PER_MICRO", "NANOS_PER_MILLI", "NANOS_PER_SECOND", "NANOS_PER_MINUTE", "NANOS_PER_HOUR", "NANOS_PER_CIVIL_DAY"]
@@ -56,6 +58,8 @@ def static_array(prog, path):
 
 
 def run(ctx, rep):
+    increment_validated(rep, ctx.prog("Q"))
+    run_truncsplit(ctx, rep, floor=1)
     run_dep(ctx, rep, "C10")
     prog = ctx.prog("Q")
     rep.notes.append("Does not decide that the returned multiple is the mode-prescribed neighbour for concrete values beyond the tables; tie handling in round_float.")
@@ -238,8 +242,8 @@ def noninterference(rep, prog, rule="NONINTERFERENCE"):
 
 def pipelines(rep, prog, rule="PIPELINE"):
     rep.rule(rule, "ZonedRound::round (sub-day) = OffsetConflict::PreferOffset.resolve(DateTimeRound::round(zdt.datetime())?, "
-                   "zdt.offset(), zdt.time_zone())?.compatible(); round_days: start = zdt.start_of_day()?, end = start + 1 day "
-                   "(calendar day via checked_add of a days span), day length = start.timestamp().until(end.timestamp()) in "
+                   "zdt.offset(), zdt.time_zone())?.compatible(); round_days: start = zdt.start_of_day()?, end = (start + 1 day).start_of_day()? "
+                   "(the first instant of the next civil date), day length = start.timestamp().until(end.timestamp()) in "
                    "nanoseconds, rounded = mode.round(zdt_ts - start_ts, day_length), result = (start_ts + rounded) checked, in zdt's zone")
     SELF, ZDT = ("param", 1, "self"), ("param", 2, "zdt")
     f = prog.jiff("zoned::ZonedRound::round")
@@ -267,7 +271,9 @@ def pipelines(rep, prog, rule="PIPELINE"):
     oks = ok_payloads(r)
     start = TRY(C("Zoned::start_of_day", ZDT))
     one_day = C("Span::days_ranged", C("Span::new"), V("one"))
-    end = TRY(C("Zoned::checked_add", start, one_day))
+    # the end of the civil day is the START OF THE NEXT civil day, not "start + 1 day": when midnight falls in a gap the
+    # day starts at 01:00, and 01:00 on the next date is neither the start of that date nor 23 hours away
+    end = TRY(C("Zoned::start_of_day", TRY(C("Zoned::checked_add", start, one_day))))
     s_ns = C("Timestamp::as_nanosecond_ranged", C("Zoned::timestamp", start))
     want = C("Timestamp::to_zoned",
              C("Timestamp::from_nanosecond_ranged", TRY(C("try_checked_add", s_ns, V("what"), V("rounded")))),
@@ -292,7 +298,7 @@ def pipelines(rep, prog, rule="PIPELINE"):
                         d_ok = True
                         one_ok = one_ok or any(x == ("const", 1) for x in walk(e2_.get("one")))
             ok = p_ok and d_ok and one_ok
-            detail = "progress ok=%s, day length from start..end(start + days span)=%s, span of one day=%s" % (p_ok, d_ok, one_ok)
+            detail = "progress ok=%s, day length from start..start_of_day(start + 1 day)=%s, span of one day=%s" % (p_ok, d_ok, one_ok)
         else:
             detail = "rounded is %s" % show(rounded, maxd=3)
     else:
@@ -301,3 +307,31 @@ def pipelines(rep, prog, rule="PIPELINE"):
         rep.ok(rule, "ZonedRound::round_days", how=detail)
     else:
         rep.violation(rule, "ZonedRound::round_days", "day rounding is not the documented composition: " + detail, f.loc())
+
+
+def increment_validated(rep, prog, rule="INCREMENT-VALIDATED"):
+    """increments that do not evenly divide the next larger unit are rejected - by every rounding entry point"""
+    rep.rule(rule, "in every `<T>Round::round` (Time, DateTime, Timestamp, Zoned incl. round_days, SignedDuration; Offset delegates to "
+                   "SignedDuration) each call of the rounding kernel (RoundMode::round_by_unit_in_nanoseconds / RoundMode::round) is "
+                   "dominated by a call of one of the util::round::increment::for_* validators, which reject increments that are not "
+                   "positive proper divisors of the next larger unit (INCREMENT-TABLE checks the validators' tables)")
+    n = 0
+    for f in sorted(prog.fns.values(), key=lambda f: f.key):
+        if f.crate != "jiff" or f.is_closure:
+            continue
+        if not (re.search(r"(TimeRound|DateTimeRound|TimestampRound|ZonedRound|SignedDurationRound|OffsetRound)::(round|round_days)$", f.path)):
+            continue
+        cfg = mir.CFG(f)
+        kern = [(bi, t) for bi, t in mir.iter_calls(f) if re.search(r"RoundMode::(round_by_unit_in_nanoseconds|round)$", t.get("path", ""))]
+        vals = [bi for bi, t in mir.iter_calls(f) if re.search(r"util::round::increment::for_\w+$", t.get("path", ""))]
+        if not kern:
+            continue
+        n += 1
+        key = "%s::%s" % (f.path.split("::")[-2], f.path.split("::")[-1])
+        bad = [t["span"]["line"] for bi, t in kern if not any(cfg.dominates(v, bi) for v in vals)]
+        if bad:
+            rep.violation(rule, key, "the rounding kernel is called at line(s) %s without a preceding increment::for_* validation: "
+                          "increments that do not divide the next larger unit are accepted" % bad, f.loc())
+        else:
+            rep.ok(rule, key, how="%d kernel call(s), each after a validator" % len(kern), loc=f.loc())
+    rep.floor(rule + " entry points", n, 5)
